@@ -60,6 +60,57 @@ def tag_order(ctx: Ctx, methods: Sequence[str] = ("time_at", "beat_at")) -> None
         ctx.expect("R-TABLE", f, f"default tag of {name} is STOP", isinstance(v, EnumVal) and v.name == "STOP", str(v), f"default event_tag is {v}", node=f.node)
 
 
+def _lex_key_semantic(ctx: Ctx, ci: ClassInfo, m: FunctionInfo, s: str, o: str) -> Optional[List[str]]:
+    """Field order of a lexicographic '<' decided from the function's decision table (any equivalent control-flow shape)."""
+    import itertools
+    import re as _re
+    from ..decide import decisions, check_table, key as _k, IGNORE
+    try:
+        decs = decisions(ctx, m)
+    except AnalysisError:
+        return None
+    keys = set()
+    for d in decs:
+        keys.update(d.assign)
+    used = []
+    for k in sorted(keys):
+        mm = _re.fullmatch(rf"{s}\.(\w+) < {o}\.(\w+)", k)
+        if mm and mm.group(1) == mm.group(2) and mm.group(1) not in used:
+            used.append(mm.group(1))
+    if not used or len(used) > 3:
+        return None
+
+    def outcome(d):
+        kk, v = d.terminal()
+        c = try_ev(ctx, m, v) if v is not None else None
+        return c if kk == "return" and isinstance(c, bool) else "?"
+
+    for order in itertools.permutations(used):
+        lt = {f: _k(f"{s}.{f} < {o}.{f}") for f in order}
+        eq = {f: _k(f"{s}.{f} == {o}.{f}") for f in order}
+        atoms = [lt[f] for f in order] + [eq[f] for f in order if eq[f] in keys]
+
+        def spec(a, order=order, lt=lt, eq=eq):
+            for i, f in enumerate(order):
+                l_ = a[lt[f]]
+                e_ = a.get(eq[f])
+                if e_ is None:
+                    # the last field needs no equality test
+                    return True if l_ else (False if i == len(order) - 1 else IGNORE)
+                if l_ and e_:
+                    return IGNORE
+                if l_:
+                    return True
+                if not e_:
+                    return False
+            return False
+
+        v, u = check_table(decs, atoms, spec, outcome)
+        if not v and not u:
+            return list(order)
+    return None
+
+
 def _lex_key(ctx: Ctx, ci: ClassInfo) -> Optional[List[str]]:
     """Field order of a lexicographic __lt__: `if a.x < b.x: True; if a.x == b.x: if a.y < b.y: True; False` or a tuple compare."""
     m = ci.methods.get("__lt__")
@@ -76,6 +127,9 @@ def _lex_key(ctx: Ctx, ci: ClassInfo) -> Optional[List[str]]:
             if fl == fr and None not in fl:
                 return fl
         return None
+    sem = _lex_key_semantic(ctx, ci, m, s, o)
+    if sem is not None:
+        return sem
     fields: List[str] = []
 
     def lt_of(test) -> Optional[str]:
@@ -197,9 +251,13 @@ def event_pairing(ctx: Ctx) -> None:
     tc = one(tcons, f"TaggedEvent construction in {f.fq}")
     tm = field_map(ctx, f"{ENG}.TaggedEvent", tc)
     lam = parent(f, tc)
-    okt = isinstance(lam, ast.Lambda) and len(lam.args.args) == 1
-    if okt:
+    a = None
+    if isinstance(lam, ast.Lambda) and len(lam.args.args) == 1:
         a = lam.args.args[0].arg
+    elif isinstance(lam, (ast.ListComp, ast.GeneratorExp)) and len(lam.generators) == 1 and isinstance(lam.generators[0].target, ast.Name) and not lam.generators[0].ifs:
+        a = lam.generators[0].target.id
+    okt = a is not None
+    if okt:
         okt = ast.unparse(tm.get("beat")) == f"{a}.beat" and ast.unparse(tm.get("value")) == f"{a}.value" and isinstance(tm.get("tag"), ast.Name)
     ctx.expect("R-REBUILD", f, "a tagged event keeps the event's beat and value and takes the list's tag", okt, "", f"{src(tc)}", node=tc)
     mg = [c_ for c_ in calls(f) if callee_name(ctx, f, c_).endswith("heapq.merge")]
@@ -254,6 +312,7 @@ def bisect_rule(ctx: Ctx, method: str, list_attr: str) -> None:
         proj = [e.attr if isinstance(e, ast.Attribute) else src(e) for e in v.elt.elts]
         seq = v.generators[0].iter
     require(proj is not None, f"{rt.fq}: construction of self.{list_attr} has an unrecognised shape: {src(st.value)}")
+    seq = inline(seq, rt)
     if isinstance(seq, ast.Call) and isinstance(seq.func, ast.Name) and seq.func.id == "cast" and len(seq.args) == 2:
         seq = seq.args[1]
     from_sm = self_attr(seq, rt.param_names()[0]) == "_state_machine"
